@@ -283,6 +283,20 @@ CLAIMED = {
 NOT_APPLICABLE = {
 }
 
+# clauses added in rounds 3 and 4 (DESIGN.md 10.10 / 10.11); appended to the texts above
+EXTRA_TEXT = {
+    "C01": " Shared with other checks: ParsedName's compressed flag (C03.flag) and the alphabet-index bound of the base16/32/64 encoders used by Display (C18.enc).",
+    "C02": " Also: each backward section conversion reaches rewind() of every later section and each rewind zeroes its own count (C02.rewind); header fields written in place by a builder inside a push closure are restored when the push fails (C02.hdr); skip and parse accept the same names (C01.skip). Thorough tier additionally builds compile-fail witnesses for the section typestates.",
+    "C03": " Also: validated name types are built directly (struct literal) only inside an unsafe fn, from a validated value or behind a validator, and every *_unchecked constructor is an unsafe fn (C03.raw); the zone-file reader never continues past an empty label (C06.empty). Thorough tier additionally builds compile-fail witnesses (unsafe constructors, no mutable access to a name's octets).",
+    "C07": " Also: every token consumer checks require_token (C07.token); next_item is only reached with the token read to its end (typestate, C07.drain); the cursor never moves past a symbol found not to be a word character (C07.delim); running length check in scan_name rejects from 255 (C07.len); the closing quote is not part of a value (C07.quote); no unchecked narrow arithmetic in scan functions (C07.ovf); the fast path passes only octets the slow path accepts (C07.fast).",
+    "C08": " Also: NXDOMAIN-marked nodes are descended through on the way down (C08.below, corrected table); QTYPE ANY chooses among the RRsets present at the reader's version (C08.any); Answer::to_message writes SOA, NS and DS independently (C08.auth); NodeRrsets::is_empty is 'no RRset present at the version' (C08.nx).",
+    "C09": " Also: a WriteNode's version follows the writer's (C09.stale, one known finding); nothing touches the update-lock guard field after construction (C09.lock); container rollback/remove_all leave no element out (C09.rbk); C08.any. Thorough tier additionally builds a compile-fail witness (a reader cannot open the zone for writing).",
+    "C11": " Also: no unwrap of message-derived results in the TSIG module (C11.panic); CLASS/TTL of the TSIG record are checked because the digest feeds constants (C11.vars); Algorithm::from_name accepts exactly one label plus root, case-insensitively (C11.alg); the request MAC is fed into the context before any later use (C11.prime); Time48 wire layout (C11.time48).",
+    "C13": " Also: every successful return of the generators has passed the step that closes / sorts-and-links the chain (C13.close); the empty-non-terminal walk has no early exit (C13.ent); the case folding of the name order (C04.fold).",
+    "C16": " Also: on the UDP arm every Continue return has stored the negotiated size (C16.size); error exits of a started stream write never flush the queue (C16.partial); the accept loop ends only for a failed server command (C16.accept).",
+    "C18": " Also: every value used to index an encoder alphabet is below the alphabet size by its masks and shifts (C18.enc).",
+}
+
 PENDING_REASON = "rule set designed (DESIGN.md §4) but not yet built in this round: not claimed until it runs"
 
 ALL = ["C%02d" % i for i in range(1, 21)]
@@ -303,7 +317,7 @@ def main():
             "engine": "domain-facts + rules/%s.py" % pid.lower(),
             "level_claimed": {
                 "category": "other",
-                "text": c["text"],
+                "text": c["text"] + EXTRA_TEXT.get(pid, ""),
                 "design_ref": c["design_ref"],
             },
             "level_note": "Decides the listed structural clauses, not the behaviour. Trusted base: rustc "
@@ -314,8 +328,10 @@ def main():
                           "all rules over the all-features extraction; thorough = the same verdict plus positive "
                           "controls (every stored property-breaking change that names this check is applied to a "
                           "scratch copy of the current tree and must be reported by its rule; reported in the "
-                          "evidence, never part of the verdict).",
-            "technique": c["technique"],
+                          "evidence, never part of the verdict) and, for C02/C03/C09, compile-fail witnesses built "
+                          "with cargo +nightly test --doc against the current tree (part of the verdict).",
+            "technique": c["technique"] + ("; compile-fail witnesses (rustdoc compile_fail with error codes, each paired with "
+                                           "a compiling twin) in the thorough tier" if pid in ("C02", "C03", "C09") else ""),
         })
     na = []
     for pid in ALL:
